@@ -72,6 +72,9 @@ def run(ctx):
     quick = ctx.tier == "quick"
     exported, mf = mc_export(ctx, "MC_C02", "MC_C02_quick.cfg" if quick else "MC_C02_thorough.cfg")
     ctx.modelfails = len(mf)
+    if quick and len(exported) > 40000:      # every rendering was checked on the model; a seeded sample is parsed by the real parser
+        ctx.rng.shuffle(exported)
+        exported = exported[:40000]
     cases, want, seen = [], {}, set()
     per = 1 if quick else 2
     for n, e in enumerate(exported):
